@@ -4,9 +4,12 @@ package atomic
 import "verif/vsched"
 
 type (
-	Int32 = vsched.Int32
-	Int64 = vsched.Int64
-	Bool  = vsched.Bool
+	Int32  = vsched.Int32
+	Int64  = vsched.Int64
+	Bool   = vsched.Bool
+	Value  = vsched.Value
+	Uint32 = vsched.Uint32
+	Uint64 = vsched.Uint64
 )
 
 var (
